@@ -196,10 +196,8 @@ class Inliner:
             self.anywhere_returns.add(n)
         if any(isinstance(x, (ast.Global, ast.Nonlocal)) for x in ast.walk(fn)):
             return
-        if n in self.helpers:
-            self.helpers[n] = None      # ambiguous name
-        else:
-            self.helpers[n] = (fn, kind, cls, body)
+        # several classes may each have a private method of this name: kept per class, resolved at the call site
+        self.helpers.setdefault(n, []).append((fn, kind, cls, body))
 
     def _match(self, call):
         """-> (helper entry, bound args mapping) or None"""
@@ -216,7 +214,14 @@ class Inliner:
         elif isinstance(f, ast.Attribute) and isinstance(f.value, ast.Attribute) and f.value.attr == '__class__':
             name = f.attr
             via_self = True
-        h = self.helpers.get(name)
+        cands = self.helpers.get(name) or []
+        h = None
+        if len(cands) == 1:
+            h = cands[0]
+        elif cands:
+            cur = getattr(self, '_cur_cls', None)
+            mine = [c_ for c_ in cands if c_[2] is not None and c_[2] == cur]
+            h = mine[0] if len(mine) == 1 else None
         if not h:
             return None
         fn, kind, cls, body = h
@@ -430,8 +435,9 @@ class Inliner:
         x = st.targets[0].id
         t = nxt.test
         if not (isinstance(t, ast.Compare) and len(t.ops) == 1 and isinstance(t.ops[0], ast.IsNot) and A.is_name(t.left, x)
-                and A.is_const(t.comparators[0], None)):
+                and isinstance(t.comparators[0], (ast.Constant, ast.Name))):
             return None
+        miss = t.comparators[0]        # what the helper answers when nothing matches: None or a module level marker
         last = nxt.body[-1] if nxt.body else None
         if not isinstance(last, (ast.Return, ast.Raise)):
             return None
@@ -444,7 +450,14 @@ class Inliner:
                 and isinstance(body[0].body[0], ast.If) and not body[0].body[0].orelse
                 and len(body[0].body[0].body) == 1 and isinstance(body[0].body[0].body[0], ast.Return)
                 and body[0].body[0].body[0].value is not None
-                and (len(body) == 1 or (isinstance(body[1], ast.Return) and (body[1].value is None or A.is_const(body[1].value, None))))):
+                and (len(body) == 1 or isinstance(body[1], ast.Return))):
+            return None
+        ret_miss = body[1].value if len(body) == 2 else None
+        if isinstance(miss, ast.Constant) and miss.value is None:
+            if not (ret_miss is None or A.is_const(ret_miss, None)):
+                return None
+        elif not (isinstance(miss, ast.Name) and isinstance(ret_miss, ast.Name) and ret_miss.id == miss.id
+                  and miss.id not in mapping and miss.id not in [a.arg for a in h[0].args.args]):
             return None
         saved = h[3]
         h2 = (h[0], h[1], h[2], body)
@@ -497,7 +510,10 @@ class Inliner:
                 st.body = self.run_block(st.body)
                 self._cur_fn = prev_fn
             elif isinstance(st, ast.ClassDef):
+                prev_cls = getattr(self, '_cur_cls', None)
+                self._cur_cls = st.name
                 st.body = self.run_block(st.body)
+                self._cur_cls = prev_cls
             else:
                 # expression level inside this statement (not inside nested blocks, already done)
                 for fname, val in list(ast.iter_fields(st)):
@@ -509,13 +525,11 @@ class Inliner:
         return out
 
     def run(self):
-        if not any(self.helpers.values()):
+        if not self.helpers:
             return 0
         self.tree.body = self.run_block(self.tree.body)
         # a helper all of whose uses were inlined is analysed through its callers only
-        for name, h in self.helpers.items():
-            if not h:
-                continue
+        for name, h in [(n_, c_) for n_, cs in self.helpers.items() for c_ in cs]:
             fn = h[0]
             left = [x for x in ast.walk(self.tree) if ((isinstance(x, ast.Name) and x.id == name) or (
                 isinstance(x, ast.Attribute) and x.attr == name)) and not any(x is y for y in ast.walk(fn))]
@@ -1591,12 +1605,68 @@ def unswitch_on_flag(tree):
     return done
 
 
+def while_true_break_to_condition(tree):
+    """`while True: if c: break; REST`  ->  `while not c: REST`   (the exit test is the first statement, else-less, and
+    the loop has no else clause; `priming` loops produced by rotate_priming_loops start with an assignment and are not
+    touched)"""
+    done = 0
+    NEG = {ast.Is: ast.IsNot, ast.IsNot: ast.Is, ast.Eq: ast.NotEq, ast.NotEq: ast.Eq, ast.Lt: ast.GtE, ast.GtE: ast.Lt,
+           ast.Gt: ast.LtE, ast.LtE: ast.Gt, ast.In: ast.NotIn, ast.NotIn: ast.In}
+    for n in ast.walk(tree):
+        if isinstance(n, ast.While) and isinstance(n.test, ast.Constant) and n.test.value is True and not n.orelse \
+                and len(n.body) >= 2 and isinstance(n.body[0], ast.If) and not n.body[0].orelse \
+                and len(n.body[0].body) == 1 and isinstance(n.body[0].body[0], ast.Break):
+            t = n.body[0].test
+            if isinstance(t, ast.UnaryOp) and isinstance(t.op, ast.Not):
+                nt = t.operand
+            elif isinstance(t, ast.Compare) and len(t.ops) == 1 and type(t.ops[0]) in NEG:
+                nt = ast.copy_location(ast.Compare(left=t.left, ops=[NEG[type(t.ops[0])]()], comparators=t.comparators), t)
+            else:
+                nt = ast.copy_location(ast.UnaryOp(op=ast.Not(), operand=t), t)
+            n.test = nt
+            n.body = n.body[1:]
+            done += 1
+    return done
+
+
+def expand_module_def_aliases(tree):
+    """inside a function: `name = _helper` where `_helper` is a *new* private module-level function (a callback lifted out
+    of the function because it needs no closure) -> a nested definition of `_helper`'s body under the name `name`"""
+    done = 0
+    mod_defs = {st.name: st for st in tree.body if isinstance(st, ast.FunctionDef) and st.name.startswith('_')
+                and not st.name.startswith('__') and st.name not in PINNED_PRIVATE}
+    if not mod_defs:
+        return 0
+    for fn in [n for n in ast.walk(tree) if isinstance(n, A.FUNC_TYPES)]:
+        if fn.name in mod_defs and fn in tree.body:
+            continue
+        for blk in _block_lists(fn):
+            for i_, st in enumerate(blk):
+                if isinstance(st, ast.Assign) and len(st.targets) == 1 and isinstance(st.targets[0], ast.Name) \
+                        and isinstance(st.value, ast.Name) and st.value.id in mod_defs \
+                        and not any(isinstance(x, (ast.Global, ast.Nonlocal)) for x in ast.walk(mod_defs[st.value.id])):
+                    new = A.clone(mod_defs[st.value.id])
+                    new.name = st.targets[0].id
+                    new.decorator_list = []
+                    ast.copy_location(new, st)
+                    blk[i_] = new
+                    done += 1
+    if done:
+        # definitions that are no longer referenced are analysed through their copies
+        for name, d in mod_defs.items():
+            left = [x for x in ast.walk(tree) if isinstance(x, ast.Name) and x.id == name and isinstance(x.ctx, ast.Load)]
+            if not left:
+                d._fully_inlined = True
+    return done
+
+
 def normalise(tree):
     """in-place normalisation of a module tree; returns statistics"""
     stats = {'helpers_inlined': 0, 'aliases_inlined': 0, 'loops_to_comprehensions': 0}
     stats['suppress_to_try'] = suppress_to_try(tree)
     stats['self_ifexp_to_if'] = self_ifexp_to_if(tree)
     stats['priming_loops_rotated'] = rotate_priming_loops(tree)
+    stats['while_true_break'] = while_true_break_to_condition(tree)
     stats['else_after_exit_flattened'] = flatten_else_after_exit(tree)
     stats['helpers_inlined'] = Inliner(tree).run()
     stats['unswitched_on_flag'] = unswitch_on_flag(tree)
@@ -1606,6 +1676,8 @@ def normalise(tree):
     stats['nested_ifs_merged'] = merge_nested_ifs(tree)
     stats['ifexp_assign_to_if'] = ifexp_assign_to_if(tree)
     stats['continue_to_else'] = continue_to_else(tree)
+    stats['tidied'] += tidy_after_inlining(tree)
+    stats['module_def_aliases'] = expand_module_def_aliases(tree)
     stats['loops_unswitched'] = unswitch_loops(tree)
     stats['nested_closures_inlined'] = 0
     for fn in [n for n in ast.walk(tree) if isinstance(n, A.FUNC_TYPES)]:
